@@ -334,9 +334,15 @@ def do_replay(prop, path):
     finally:
         suite.teardown()
     msg = suite.oracle(payload['case'], o)
-    i, _ = suite.encode(payload['case'], o)
     print('case      :', json.dumps(payload['case'], default=str)[:2000])
     print('observed  :', json.dumps(o, default=str)[:2000])
-    print('model     :', coqrun.eval_model(suite, i)[-2000:])
+    if suite.model:
+        try:
+            i, _ = suite.encode(payload['case'], o)
+            print('model     :', coqrun.eval_model(suite, i)[-2000:])
+        except Exception as e:
+            print('model     : (the observation cannot be encoded for the model:', type(e).__name__, e, ')')
+    else:
+        print('model     : (runtime suite: the oracle decides)')
     print('oracle    :', msg)
     return 1 if msg else 0
